@@ -744,7 +744,7 @@ impl CommandExecutor for DrawExecutor {
     fn get_picture_data(&mut self) -> Option<(Size, Vec<u8>)> {
         let mut pixels = Vec::new();
         for i in &self.screen {
-            let (r, g, b) = self.pen_colors[*i as usize].get_rgb();
+            let (r, g, b) = self.pen_colors[*i as usize % self.pen_colors.len()].get_rgb();
 
             pixels.push(r);
             pixels.push(g);
